@@ -72,6 +72,38 @@ def register(reg):
                   '(xi - x0) * (y1 - yi), (x1 - xi) * (y1 - yi)')],
     ))
 
+    # degenerate grids: a single grid point along x and / or y ("nearest edge value" along the
+    # other axis still applies: positions beyond the first / last point get the edge ePSF)
+    gx0, gx1, gy0, gy1 = 'grid_xy[0]', 'grid_xy[1]', 'grid_xy[2]', 'grid_xy[3]'
+    nonneg = 'result[0] >= 0 and result[1] >= 0 and result[2] >= 0 and result[3] >= 0'
+    one = 'result[0] + result[1] + result[2] + result[3] == 1'
+    for tag, req, ens in (
+            ('single-row', [f'{gx0} < {gx1}', f'{gy0} == {gy1}'],
+             [('all-weight-on-the-row', 'result[2] == 0 and result[3] == 0'),
+              ('x-interpolation-clamped-at-the-ends',
+               f'result[1] * ({gx1} - {gx0}) == ite(xi <= {gx0}, 0, ite(xi >= {gx1}, '
+               f'{gx1} - {gx0}, xi - {gx0}))')]),
+            ('single-column', [f'{gx0} == {gx1}', f'{gy0} < {gy1}'],
+             [('all-weight-on-the-column', 'result[1] == 0 and result[3] == 0'),
+              ('y-interpolation-clamped-at-the-ends',
+               f'result[2] * ({gy1} - {gy0}) == ite(yi <= {gy0}, 0, ite(yi >= {gy1}, '
+               f'{gy1} - {gy0}, yi - {gy0}))')]),
+            ('single-point', [f'{gx0} == {gx1}', f'{gy0} == {gy1}'],
+             [('all-weight-on-the-point', 'result[0] == 1 and result[1] == 0 and result[2] == 0 '
+                                          'and result[3] == 0')])):
+        reg.add(Contract(
+            target=f'{G}._calc_bilinear_weights', props=['C13'], kind='method', tag=tag,
+            params={'self': ('record', 'GriddedPSFModel', {}), 'xi': 'real', 'yi': 'real',
+                    'grid_xy': ('tuple', 'real', 'real', 'real', 'real')},
+            requires=req,
+            ensures=[('non-negative', nonneg), ('sum-to-one', one)] + ens,
+            mutants={'single-row': [('xi = np.clip(xi, x0, x1)', 'xi = xi'),
+                                    ('wx[0] * wy[0], wx[1] * wy[0],', 'wx[0] * wy[0], wx[0] * wy[1],')],
+                     'single-column': [('yi = np.clip(yi, y0, y1)', 'yi = yi'),
+                                       ('wx[0] * wy[0], wx[1] * wy[0],', 'wx[0] * wy[0], wx[0] * wy[1],')],
+                     'single-point': []}[tag],
+        ))
+
 
 def register_gaussians(reg):
     import z3
